@@ -168,7 +168,11 @@ func runS6PolicyWith(one func(scope string, a *refsem.Arch, p *seccomp.Policy, o
 		if j.follow == 1 {
 			g.NamesWithCondtions = append(g.NamesWithCondtions, seccomp.NameWithConditions{Name: n[0], Conditions: seccomp.ArgumentConditions{{Argument: 0, Operation: seccomp.Equal, Value: 7}}})
 		}
-		p := &seccomp.Policy{DefaultAction: seccomp.ActionAllow, Syscalls: []seccomp.SyscallGroup{g}}
+		def := []seccomp.Action{seccomp.ActionAllow, seccomp.ActionErrno, seccomp.ActionKillProcess, seccomp.ActionLog}[i%4]
+		if def == seccomp.ActionErrno {
+			g.Action = seccomp.ActionKillThread
+		}
+		p := &seccomp.Policy{DefaultAction: def, Syscalls: []seccomp.SyscallGroup{g}}
 		if j.groups == 2 {
 			p.Syscalls = append(p.Syscalls, seccomp.SyscallGroup{Action: seccomp.ActionTrap, Names: []string{n[2], "close"}, NamesWithCondtions: []seccomp.NameWithConditions{
 				{Name: n[1], Conditions: seccomp.ArgumentConditions{{Argument: 0, Operation: seccomp.Equal, Value: 99}}}}})
@@ -193,7 +197,11 @@ func runS6PolicyWith(one func(scope string, a *refsem.Arch, p *seccomp.Policy, o
 			if follow {
 				g.NamesWithCondtions = append(g.NamesWithCondtions, seccomp.NameWithConditions{Name: n[0], Conditions: seccomp.ArgumentConditions{{Argument: 0, Operation: seccomp.Equal, Value: 7}}})
 			}
-			p := &seccomp.Policy{DefaultAction: seccomp.ActionKillProcess, Syscalls: []seccomp.SyscallGroup{g, {Action: seccomp.ActionAllow, Names: []string{n[2]}}}}
+			def := []seccomp.Action{seccomp.ActionKillProcess, seccomp.ActionErrno, seccomp.ActionTrap}[i%3]
+			if def == seccomp.ActionErrno {
+				g.Action = seccomp.ActionLog
+			}
+			p := &seccomp.Policy{DefaultAction: def, Syscalls: []seccomp.SyscallGroup{g, {Action: seccomp.ActionAllow, Names: []string{n[2]}}}}
 			one("S6/longlist", a, p, engine.Options{MaxEvents: 1 << 24})
 		}
 	})
